@@ -802,6 +802,8 @@ def run_nested(case):
     action, task, exc = _mods()
     verb = {int(k): v for k, v in case.get('verb', {}).items()}
     ending = {int(k): v for k, v in case.get('ending', {}).items()}
+    capm = {int(k): v for k, v in case.get('cap', {}).items()}     # opt-in (kind 'ncnest'): io.capture per action
+    escaped = {}                                                   # what left Task.execute, per action
     tasks = {}
     ident_after = []
 
@@ -833,9 +835,13 @@ def run_nested(case):
                     return 'res%d' % a
                 return True
         v = verb.get(a, 0)
-        t = task.Task('t%d' % a, [fn], verbosity=v)
+        if a in capm:
+            t = task.Task('t%d' % a, [fn], verbosity=v, io={'capture': capm[a]})
+        else:
+            t = task.Task('t%d' % a, [fn], verbosity=v)
         tasks[a] = t
-        call(lambda: t.execute(task.Stream(v)))
+        _, esc = call(lambda: t.execute(task.Stream(v)))
+        escaped[str(a)] = type(esc).__name__ if esc is not None else None
         if owner is None:
             ident_after.append([a] + sw.identity())
 
@@ -844,7 +850,7 @@ def run_nested(case):
         ident = sw.identity()
     obs = {'restored': ident, 'after_each_top': ident_after, 'O': toks(sw.O.getvalue(), 'o'),
            'E': toks(sw.E.getvalue(), 'e'), 'out': {}, 'err': {},
-           'harness_exc': type(raised).__name__ if raised is not None else None}
+           'harness_exc': type(raised).__name__ if raised is not None else None, 'escaped': escaped}
     for a, t in tasks.items():
         act = t.actions[0]
         obs['out'][str(a)] = toks(act.out, 'o')
@@ -908,14 +914,18 @@ def run_overlap(case):
                     return True
         return fn
 
+    ov = case.get('v', 0)              # opt-in knobs of kind 'ncoverlap': verbosity and io.capture of every task
     for a in all_acts:
-        tasks[a] = task.Task('t%d' % a, [mk(a)], verbosity=0)
+        if 'cap' in case:
+            tasks[a] = task.Task('t%d' % a, [mk(a)], verbosity=ov, io={'capture': case['cap']})
+        else:
+            tasks[a] = task.Task('t%d' % a, [mk(a)], verbosity=0)
 
     def thread_body(acts):
         for a in acts:
             if not go[a].wait(T):
                 return
-            call(lambda: tasks[a].execute(task.Stream(0)))
+            call(lambda: tasks[a].execute(task.Stream(ov)))
             ack.put(('ended', a))
 
     problem = None
@@ -964,6 +974,21 @@ def overlap_evs(case):
             evs.append(['write', st[1], st[2]])
         else:
             evs += [['restore', st[1]], ['read', st[1]]]
+    return evs
+
+
+def overlap_mode_evs(case, chan):
+    """the steps of the schedule when every execution has io.capture off"""
+    v = case.get('v', 0)
+    on = (v not in (0, 1)) if chan == 'o' else (v != 0)
+    evs = []
+    for st in case['schedule']:
+        if st[0] == 'start':
+            evs += [['getlive', st[1], on], ['swapNC', st[1]]]
+        elif st[0] == 'w':
+            evs.append(['write', st[1], st[2]])
+        else:
+            evs.append(['restoreNC', st[1]])
     return evs
 
 
